@@ -169,6 +169,7 @@ LAYOUT_PAIRS = [
     ("rtp::parse_nack_body", "rtp::build_nack_body"),
     ("rtp::parse_remb_body", "rtp::build_remb_body"),
     ("rtp::parse_twcc_body", "rtp::build_twcc_body"),
+    ("rtp::RtpHeader::parse", "rtp::RtpHeader::write_to"),
 ]
 def r15_5(ctx):
     """sibling agreement (Engler/Min): for every RTCP body with a fixed-offset part, the byte positions the
@@ -176,7 +177,7 @@ def r15_5(ctx):
     the fixed part only (no loops, no bit packing inside a byte)."""
     r = RuleResult("R15.5", "K6", "parser and marshaller agree on the byte positions of every fixed-offset RTCP field")
     compared = layout.compare(r, core, ctx, LAYOUT_PAIRS, adt_prefix="rtp::")
-    r.need("fixed-offset fields compared", compared, 24)
+    r.need("fixed-offset fields compared", compared, 27)
     return r
 
 
@@ -252,5 +253,43 @@ def r15_6(ctx):
     return r
 
 
+RTP_MASKS = {0x20: "P (padding) bit of byte 0", 0x10: "X (extension) bit of byte 0", 0x0F: "CSRC count of byte 0",
+             0x80: "M (marker) bit of byte 1", 0x7F: "payload type of byte 1"}
+
+
+def _mask_consts(b):
+    out = set()
+    for bi, si, st in b.assigns():
+        rv = st["rv"]
+        if rv["r"] == "bin" and rv["op"] in ("BitAnd", "BitOr"):
+            for o in (rv["a"], rv["b"]):
+                if o.get("k") == "c":
+                    v = mir.int_value(b.term_operand(o))
+                    if isinstance(v, int):
+                        out.add(v)
+    return out
+
+
+def r15_7(ctx):
+    """RFC 3550 5.1: V(2) P(1) X(1) CC(4) | M(1) PT(7). Parser and writer must use the same five masks, and they
+    must be the RFC's."""
+    r = RuleResult("R15.7", "K6", "RTP header bit fields: parser and writer use the RFC 3550 masks")
+    pb, wb = ctx.body("rtp::RtpHeader::parse"), ctx.body("rtp::RtpHeader::write_to")
+    r.scope += [pb.name, wb.name]
+    pm, wm = _mask_consts(pb), _mask_consts(wb)
+    for m, what in sorted(RTP_MASKS.items()):
+        if m in pm and m in wm:
+            r.ok({"mask": hex(m), "field": what})
+        else:
+            r.violate(wb.name if m not in wm else pb.name, "mask:%s" % hex(m), (wb if m not in wm else pb).where(0),
+                      "mask %s (%s) is not used by %s" % (hex(m), what, "the writer" if m not in wm else "the parser"))
+    for m in sorted((pm | wm) - set(RTP_MASKS) - {0, 1, 0xFF}):
+        if m in pm and m in wm:
+            continue
+        r.violate(wb.name if m in wm else pb.name, "mask:%s" % hex(m), (wb if m in wm else pb).where(0),
+                  "bit mask %s is used on the RTP header by only one of parser / writer" % hex(m))
+    return r
+
+
 def run(ctx):
-    return [r15_1(ctx), r15_2(ctx), r15_3(ctx), r15_4(ctx), r15_5(ctx), r15_6(ctx)]
+    return [r15_1(ctx), r15_2(ctx), r15_3(ctx), r15_4(ctx), r15_5(ctx), r15_6(ctx), r15_7(ctx)]
